@@ -215,6 +215,13 @@ func (w *world) taskFn(i int) func() {
 			// well-known error values of the standard library, bare or wrapped: what a task
 			// that gives up on a cancelled context, a closed file or an aborted request panics with
 			panic(sentinelPanic(i, sp.panicK))
+		case 15:
+			// a panic raised inside a compiler-generated wrapper: a value-receiver method called
+			// through an interface that holds a nil pointer (the traceback has a frame whose
+			// file is "<autogenerated>")
+			var n *named15
+			var s fmt.Stringer = n
+			_ = s.String()
 		case 4:
 			// panic(nil) with the pre-go1.21 semantics golib's own go.mod (go 1.18) selects:
 			// recover() returns nil.  It is a panic by any reading, so it must neither kill
@@ -223,6 +230,11 @@ func (w *world) taskFn(i int) func() {
 		}
 	}
 }
+
+type named15 struct{ a, b int }
+
+//go:noinline
+func (n named15) String() string { return fmt.Sprint(n.a, n.b) }
 
 func sentinelPanic(i, k int) error {
 	switch k {
@@ -243,6 +255,9 @@ func sentinelPanic(i, k int) error {
 func panicText(i, k int) string {
 	if k >= 9 && k <= 14 {
 		return fmt.Sprint(sentinelPanic(i, k))
+	}
+	if k == 15 {
+		return "value method harness/wb.named15.String called using nil *named15 pointer"
 	}
 	switch k {
 	case 1:
@@ -783,7 +798,7 @@ func gen(r *sim.Rng, tier string) *sim.Case {
 		if r.Pct(panicPct) {
 			t.V = r.Range(1, 8)
 			if r.Pct(25) {
-				t.V = r.Range(9, 14) // well-known sentinel errors, bare or wrapped
+				t.V = r.Range(9, 15) // well-known sentinel errors, bare or wrapped; a panic inside an autogenerated wrapper
 			}
 		}
 		if r.Pct(blockPct) {
